@@ -99,7 +99,13 @@ def generate(qualname: str, registry: dict, specfuns: dict, engine_cls=None, mut
         res.status, res.detail = "out_of_reach", str(e)
         return res, jobs
     except ContractError as e:
-        res.status, res.detail = "contract_error", str(e)
+        msg = str(e)
+        if msg.startswith("unknown name") or "needs a declared type in the loop contract" in msg or "has no invariant" in msg:
+            # the loop annotations of the contract no longer fit the code (a loop was restructured): the function is outside
+            # what this contract can decide - undecided, not a checker failure
+            res.status, res.detail = "out_of_reach", "contract annotations do not fit the code: " + msg
+            return res, jobs
+        res.status, res.detail = "contract_error", msg
         return res, jobs
     except Exception as e:  # checker crash
         res.status, res.detail = "crash", f"{type(e).__name__}: {e}\n{traceback.format_exc()[-1500:]}"
